@@ -86,10 +86,13 @@ class OnlineEnsembleForecaster(EnsembleForecaster):
         self : an instance of self
         """
         self.check_is_fitted()
-        self._update_y_X(y, X)
 
+        # the ensemble weights are updated from the members' forecasts of the new
+        # observations, which are made from the cutoff before them
         if len(y) >= 1 and self.ensemble_algorithm is not None:
-            self._fit_ensemble(y, X)
+            self._fit_ensemble(check_y(y), X)
+
+        self._update_y_X(y, X)
 
         for forecaster in self.forecasters_:
             forecaster.update(y, X, update_params=update_params)
